@@ -9,9 +9,21 @@
        reply = as in Run/RunC03.v (absent or () = the sink always continues)
      result  = list of results (Run/RunC03.v of_result), one per source, in order.
      No transcoding (encoding None, bom_sniffing off: decode = identity), binary detection None,
-     heap limit None. *)
+     heap limit None.
+   kind 207 (the multi-line heap buffer of ONE reused Searcher, Model/MultiLineBuffer.v):
+     (cfg matcher heap mmap sources)   cfg has multi_line, the matcher may match the terminator
+       heap    = () no heap limit | (h)
+       mmap    = 1: memory maps enabled in the Searcher's configuration (only matters for check_config)
+       sources = list of (tag input hist reply rooms)
+         tag   = 1 search_reader (the caller's reader obeys hist; search_reader puts the pass-through BomPeeker
+                 in front of the loop) | 3 search_file of a real file without a memory map (hist and rooms ())
+         rooms = the sizes of the slices the caller's reader was offered when the code ran (used only to
+                 instantiate std's read_to_end policy when there is no heap limit; with a limit the model
+                 computes the sizes itself)
+     result  = list of (status events errkind rooms): errkind 0 none | 1 configuration | 2 heap limit |
+               3 read error; rooms = sizes of the slices offered to the caller's reader, in order (() for files) *)
 From RG Require Import Base.Bytes Base.Val Model.Lines Model.SearcherCore Model.Glue Model.ScriptedMatcher
-  Model.ReadByLine Model.SearcherGlue Run.RunC03.
+  Model.ReadByLine Model.SearcherGlue Model.MultiLineBuffer Run.RunC03.
 
 Definition decode_pol (v : val) : alloc_policy :=
   match as_list v with [] => AEager | x :: _ => AError (as_nat x) end.
@@ -48,9 +60,74 @@ Definition run_search_seq (v : val) : val :=
     (fst (search_seq cfg M false false (fun b => b) (ss_new (as_nat (fld 2 v)))
                      (map decode_source (as_list (fld 3 v))))).
 
+(* kind 207 *)
+Definition decode_heap (v : val) : option nat :=
+  match as_list v with [] => None | x :: _ => Some (as_nat x) end.
+
+Definition errkind_of (f : ml_fill_result) : N :=
+  match f with MlOk _ _ _ => 0%N | MlHeapErr _ _ _ => 2%N | MlIoErr _ _ _ => 3%N | MlFuel => 9%N end.
+
+Definition status_events (r : run_result) : val * val :=
+  match r with
+  | RunOk evs => (VN 0%N, of_list of_event evs)
+  | RunErr evs => (VN 1%N, of_list of_event evs)
+  | RunFuel => (VN 2%N, VL [])
+  end.
+
+Definition ml_result_val (r : run_result) (ek : N) (rooms : list nat) : val :=
+  let (st, evs) := status_events r in VL [st; evs; VN ek; of_list of_nat rooms].
+
+Definition run_ml_source (cfg : config) (M : matcher) (heap : option nat) (mmap : bool) (b : mlbuf) (src : val)
+  : val * mlbuf :=
+  let s := as_bytes (fld 1 src) in
+  let reply_of := decode_reply (fld 3 src) in
+  let rooms := map as_nat (as_list (fld 4 src)) in
+  if negb (ml_check_config cfg M heap mmap) then (ml_result_val (RunErr []) 1%N [], b) else
+  match as_N (fld 0 src) with
+  | 1%N =>
+    let r0 := {| r_rest := s; r_hist := decode_hist (fld 2 src) |} in
+    match heap with
+    | Some 0 =>      (* the error comes before the first read: the peeker is never asked *)
+      let f := ml_fill_from_reader heap [] b r0 in
+      let '(res, b', tr) := ml_after_fill cfg M reply_of b f in
+      (ml_result_val res (errkind_of f) (rev tr), b')
+    | _ =>
+      (* the loop's first read() makes the BomPeeker fetch up to 3 bytes from the caller's reader; that first
+         read() is then answered by the peeker (with those bytes, or with the error of the fetch) *)
+      let '(first, ptr, r1) :=
+        match peek_loop (ml_fuel r0) 3 [] [] r0 with
+        | PeekOk got tr r' => (negb (Nat.eqb (length got) 0), tr, peeked_reader got r')
+        | PeekErr tr r' => (true, tr, {| r_rest := r_rest r'; r_hist := RFail :: r_hist r' |})
+        | PeekFuel => (false, [], r0)
+        end in
+      let rooms' := (if first then [32] else []) ++ skipn (length ptr) rooms in
+      let f := ml_fill_from_reader heap rooms' b r1 in
+      let '(res, b', tr) := ml_after_fill cfg M reply_of b f in
+      let ltr := rev tr in
+      (ml_result_val res (errkind_of f) (rev ptr ++ (if first then tl ltr else ltr)), b')
+    end
+  | _ =>
+    let f := ml_fill_from_file heap [] (length s) b {| r_rest := s; r_hist := [] |} in
+    let '(res, b', _) := ml_after_fill cfg M reply_of b f in
+    (ml_result_val res (errkind_of f) [], b')
+  end.
+
+Fixpoint run_ml_sources (cfg : config) (M : matcher) (heap : option nat) (mmap : bool) (b : mlbuf) (srcs : list val) : list val :=
+  match srcs with
+  | [] => []
+  | src :: rest => let (v, b') := run_ml_source cfg M heap mmap b src in v :: run_ml_sources cfg M heap mmap b' rest
+  end.
+
+Definition run_ml_seq (v : val) : val :=
+  let cfg := decode_cfg (fld 0 v) in
+  let M := decode_matcher cfg (fld 1 v) in
+  if negb (multi_line_with_matcher cfg M) then VL [VN 9%N] else
+  VL (run_ml_sources cfg M (decode_heap (fld 2 v)) (N.eqb (as_N (fld 3 v)) 1%N) mb_new (as_list (fld 4 v))).
+
 Definition entry (k : N) (v : val) : option val :=
   match k with
   | 201%N => Some (run_reader v)
   | 206%N => Some (run_search_seq v)
+  | 207%N => Some (run_ml_seq v)
   | _ => None
   end.
